@@ -366,7 +366,7 @@ def parse_cbmc_json(out):
     return results, status, msgs
 
 
-def run_cbmc(proof, gb, tmp, log, backend=None, extra=None, timeout=None):
+def run_cbmc(proof, gb, tmp, log, backend=None, extra=None, timeout=None, ui="xml"):
     flags = list(proof.get("cbmc_flags", STD_CHECKS))
     flags += proof.get("more_flags", [])
     if proof.get("unwindset"):
@@ -382,19 +382,60 @@ def run_cbmc(proof, gb, tmp, log, backend=None, extra=None, timeout=None):
         flags += ["--external-sat-solver", "kissat"]
     elif be in ("z3", "cvc5"):
         flags += ["--" + be]
-    cmd = ["cbmc", gb, "--json-ui"] + flags + (extra or [])
+    mem = float(os.environ.get("VERIF_MEM_OVERRIDE", 0)) or proof.get("mem_gb", 10)
+    if ui == "json":
+        # used for single-property trace runs only
+        cmd = ["cbmc", gb, "--json-ui"] + flags + (extra or [])
+        log.append("$ " + " ".join(cmd))
+        rc, out, err, secs = sh(cmd, cwd=tmp, timeout=timeout or proof.get("timeout", 900), mem_gb=mem)
+        results, status, msgs = parse_cbmc_json(out)
+        return dict(rc=rc, results=results, status=status, msgs=msgs, secs=secs, cmd=" ".join(cmd),
+                    rss_gb=LAST_RSS.get(threading.get_ident()), err=err[-2000:], raw_tail=out[-2000:])
+    # Verdicts are taken from the XML interface.  The JSON interface embeds a counterexample trace in every failed result
+    # (cover points fail by design) and runs out of memory building some of them, which silently truncates the result list.
+    # XML results carry no description, so names / descriptions / locations come from --show-properties (same flags, no
+    # solving), which also says how many results there must be.
+    pcmd = ["cbmc", gb, "--show-properties", "--json-ui"] + flags + (extra or [])
+    rc0, pout, perr, _ = sh(pcmd, cwd=tmp, timeout=300, mem_gb=mem)
+    props = {}
+    try:
+        for e in json.loads(pout):
+            for q in e.get("properties", []) if isinstance(e, dict) else []:
+                props[q["name"]] = q
+    except Exception:
+        props = {}
+    cmd = ["cbmc", gb, "--xml-ui"] + flags + (extra or [])
     log.append("$ " + " ".join(cmd))
-    rc, out, err, secs = sh(cmd, cwd=tmp, timeout=timeout or proof.get("timeout", 900),
-                            mem_gb=float(os.environ.get("VERIF_MEM_OVERRIDE", 0)) or proof.get("mem_gb", 10))
-    results, status, msgs = parse_cbmc_json(out)
+    rc, out, err, secs = sh(cmd, cwd=tmp, timeout=timeout or proof.get("timeout", 900), mem_gb=mem)
+    results, status, msgs = parse_cbmc_xml(out, props)
+    if results is not None and props and len(results) != len(props) and not (extra and "--property" in extra):
+        msgs.append("ERROR: incomplete result list: %d results for %d properties" % (len(results), len(props)))
+        results = None
     return dict(rc=rc, results=results, status=status, msgs=msgs, secs=secs, cmd=" ".join(cmd),
                 rss_gb=LAST_RSS.get(threading.get_ident()),
                 err=err[-2000:], raw_tail=out[-2000:])
 
 
+def parse_cbmc_xml(out, props):
+    """Results of a --xml-ui run as a list of dicts shaped like the JSON interface's (property, description, status,
+    sourceLocation); None when the run did not get as far as a result list."""
+    st = re.search(r"<cprover-status>(\w+)</cprover-status>", out)
+    msgs = [re.sub(r"\s+", " ", m).strip() for m in re.findall(r'<message type="ERROR">\s*<text>(.*?)</text>', out, flags=re.S)]
+    found = re.findall(r'<result property="([^"]+)" status="([^"]+)"', out)
+    if not found or st is None:
+        return None, (st.group(1) if st else None), msgs
+    results = []
+    for name, status in found:
+        q = props.get(name, {})
+        loc = q.get("sourceLocation", {})
+        results.append(dict(property=name, status=status, description=q.get("description", ""),
+                            sourceLocation=dict(file=loc.get("file", ""), line=loc.get("line"), function=loc.get("function"))))
+    return results, st.group(1), msgs
+
+
 def trace_for(proof, gb, tmp, log, propname, backend=None):
     r = run_cbmc(proof, gb, tmp, log, backend=backend, extra=["--trace", "--property", propname],
-                 timeout=proof.get("timeout", 900))
+                 timeout=proof.get("timeout", 900), ui="json")
     if not r["results"]:
         return None
     for p in r["results"]:
@@ -447,7 +488,7 @@ def run_proof(proof, tier, keep=False, backend=None):
         res["rss_gb"] = r.get("rss_gb")
         res["cmd"] = r["cmd"]
         if r["results"] is None:
-            raise Undecided("cbmc gave no result list (rc=%s): %s %s" % (r["rc"], r["err"], r["raw_tail"][-600:]))
+            raise Undecided("cbmc gave no (complete) result list (rc=%s): %s %s %s" % (r["rc"], "; ".join(r["msgs"][-3:]), r["err"][-300:], r["raw_tail"][-300:]))
         if any("ignoring" in m and ("forall" in m or "exists" in m) for m in r["msgs"]):
             raise Undecided("back end ignored a quantifier")
         names = set()
